@@ -373,3 +373,10 @@ CHECKS["C15"]["rule"] += " Action governance_changes_auth_params (memo size 1-51
 CHECKS["C19"]["rule"] += " One case in four funds the minter's module account with coins of the mint denomination."
 CHECKS["C20"]["rule"] += " Query state 3 may run a block and then let governance drop the finished periods from the schedule."
 
+# ---------------------------------------------------------------- round 15: roles
+for _pid in ("C05", "C06", "C08", "C18"):
+    CHECKS[_pid]["rule"] += " Roles: one history in three has a continuous vesting account (locked, staked and liquid coins) and the periodic / delayed / permanently locked accounts among the pool owners and direct-creation senders; amounts include one more than the sender can spend and its whole balance."
+CHECKS["C07"]["rule"] += " One sender in three is an account the module keeps a trace record of."
+CHECKS["C17"]["rule"] += " Action vesting_account_opens_a_pool: a vesting account of the history puts liquid coins into a (non-genesis) pool of its own, later sends may use it."
+CHECKS["C18"]["rule"] += " One TestC18Mint case in four funds the minter's module account."
+
